@@ -9,12 +9,12 @@ var properties = []propertySpec{
 		ID: "C19",
 		Harnesses: []harnessSpec{
 			{Name: "graphh.H_C19", Module: "harness",
-				Quick:    map[string]int{"N": 3, "L": 1, "order_schemes": 2},
-				Thorough: map[string]int{"N": 3, "L": 2, "order_schemes": 6},
-				Covers:   []string{"acyclic_state", "cyclic_state", "replace", "rejected_add", "deferred_add", "remove", "clear", "noop"},
+				Quick:    map[string]int{"N": 3, "L": 1, "order_schemes": 2, "raw_start": 1},
+				Thorough: map[string]int{"N": 3, "L": 2, "order_schemes": 6, "raw_start": 1},
+				Covers:   []string{"acyclic_state", "cyclic_state", "replace", "rejected_add", "deferred_add", "remove", "clear", "noop", "raw_start"},
 				Xval:     40,
 				XSolvers: []string{"z3-new", "cvc5"},
-				Desc:     "start state from symbolic presence/dependency masks over N identities (types x keys x groups), then L operations {AddProvider, AddProviderDeferred+DetectCycles, RemoveProvider, Clear, query-only} with symbolic operands; every exported query compared with a reference digraph after each step"},
+				Desc:     "start state from symbolic presence/dependency masks over N identities (types x keys x groups), then L operations {AddProvider, AddProviderDeferred+DetectCycles, RemoveProvider, Clear, query-only} with symbolic operands; every exported query compared with a reference digraph after each step; raw_start=1: optionally the first operation follows the deferred adds directly, without the DetectCycles that refreshes degrees and dependents (then it is one of the operations documented to refresh them)"},
 		},
 	},
 	{
@@ -171,6 +171,7 @@ h("cont.H_OptionalFault", map[string]int{"rounds": 3, "order_schemes": 1}, map[s
 			h("cont.H_Misuse", map[string]int{"order_schemes": 1}, map[string]int{"order_schemes": 2}, []string{"called"}, 30, "a table of 34 API calls with nil / zero / unregistered / mismatched / invalid arguments on a collection, an open provider+scope, and a closed provider+scope (call and state symbolic); no panic, the documented sentinel or typed error through errors.Is/As, collection still buildable after a rejected Add"),
 			h("cont.H_Faults", map[string]int{"order_schemes": 1}, map[string]int{"order_schemes": 2}, []string{"built", "build_failed", "resolution_failed"}, 30, "dependency chain 0->1->2 with symbolic lifetimes, registered directly or through nested modules; one constructor - of shape (T, error), (T, A, error) or (result object, error) - fails once (error, wrapped error or panic) at a symbolic invocation during Build or a resolution; error class and cause through BuildError / ResolutionError / ConstructorInvocationError / ModuleError, no caching of the failure, retry re-invokes and yields a fully wired value, everything constructed on the way closed exactly once"),
 			h("cont.H_Dispose", dsp(0, 2, 3, 0, 1, 1, 0), dsp(0, 2, 3, 1, 1, 1, 0), append([]string{"build_failed"}, dspCov...), 0, dspDesc),
+			h("cont.H_Build", bld(0, 3, 1), bld(0, 3, 2), buildCov, 0, buildDesc+"; under C15: whichever phase of Build notices it, a circular set fails with an error that errors.As classifies as CircularDependencyError and a captive dependency with a LifetimeConflictError"),
 			h("cont.H_TypedErrors", map[string]int{"order_schemes": 1}, map[string]int{"order_schemes": 2}, []string{"build_failed", "resolution_failed", "resolved"}, 20, "a constructor whose LAST result is declared with a concrete pointer type implementing error, a struct type with a value-receiver Error method (cannot be nil), or a custom interface embedding error; lifetime symbolic; one invocation (symbolic, or none) fails: no call panics, the failure is an error from which the constructor's own error is reachable with errors.As (BuildError for singletons), nothing is cached, the retry invokes the constructor again and yields a value, a success is reported as a success"),
 		}, Own: []string{"C15.", "C10.leaked", "C10.closed_twice", "C10.failed_build_leak", "C10.failed_scope_leak"}},
 	)
@@ -239,6 +240,7 @@ h("cont.H_OptionalFault", map[string]int{"rounds": 3, "order_schemes": 1}, map[s
 	hrace2.Thorough = map[string]int{"ops": 2, "order_schemes": 1, "race": 1, "worlds": 1}
 	const g2Desc = "; G2 scheduling: on top of the switches at user callbacks, up to `g2` involuntary context switches, each placed by the solver in front of any mutex acquisition, atomic operation or sync.Map operation executed by godi's own code (vm.isSyncOp) - interleavings between two container-internal synchronisation operations; counterexamples are replayed natively on a runner built from instrumented copies of godi's current sources (gosym instrument: the same points call the baton)"
 	hg2 := h("cont.H_Conc", map[string]int{"ops": 1, "order_schemes": 1, "worlds": 1, "vars": 1, "g2": 1}, map[string]int{"ops": 1, "order_schemes": 1, "worlds": 4, "vars": 3, "g2": 1}, []string{"both_done"}, 0, concDesc+g2Desc)
+	hnochild := h("cont.H_Conc", map[string]int{"ops": 1, "order_schemes": 1, "worlds": 2, "nochild": 2, "vars": 1}, map[string]int{"ops": 1, "order_schemes": 1, "worlds": 4, "nochild": 2, "vars": 3}, []string{"both_done"}, 0, concDesc+"; here the shared scope has NO child of its own when the operations start (a scope without children takes another path through Close); a scope handed out by a CreateScope that overlapped the Close of its parent must be closed (context cancelled, goroutines gone)")
 	hcb := h("cont.H_CloseInCallback", map[string]int{"order_schemes": 1}, map[string]int{"order_schemes": 2}, []string{"callback_closed"}, 10, cbDesc)
 	properties = append(properties,
 		propertySpec{ID: "C09", Harnesses: []harnessSpec{hc1, hcb, hrace, hrace2, hg2,
@@ -257,17 +259,29 @@ h("cont.H_OptionalFault", map[string]int{"rounds": 3, "order_schemes": 1}, map[s
 		case "C10", "C11", "C13":
 			properties[i].Harnesses = append(properties[i].Harnesses, hchurn)
 		}
+		switch properties[i].ID {
+		case "C13", "C14":
+			properties[i].Harnesses = append(properties[i].Harnesses, hnochild)
+		}
+	}
+	hempty := h("cont.H_EmptyIn", map[string]int{"order_schemes": 1}, map[string]int{"order_schemes": 2}, []string{"built", "resolved"}, 10, "constructors whose only parameter is a parameter object WITHOUT any injectable field (only the embedded godi.In, or only ignored / unexported fields), as a service of symbolic lifetime with a consumer and optionally as a scoped initializer: the set has no dependency problem, so Build accepts it, scope creation works, every identity resolves, the parameter object arrives untouched")
+	for i := range properties {
+		switch properties[i].ID {
+		case "C08", "C04":
+			properties[i].Harnesses = append(properties[i].Harnesses, hempty)
+		}
 	}
 	sibDesc := "one identity that a multi-return constructor ALSO produces has a registration of its own, with its own lifetime - because that output was removed and registered again (Add(pair), Remove(*B), Add(newB)), or because the pair lives under a name next to an unnamed registration (Add(pair, Name(x)), Add(newA)); lifetimes of both symbolic; L symbolic resolutions over the provider and two scopes mixing requests for the pair's outputs and for the independent identity, then a sweep: every value comes from the constructor registered for its identity and follows that registration's lifetime rule (instances, constructor invocation counts), whatever the other constructor did in that scope before"
 	hsib := h("cont.H_ReplacedSibling", map[string]int{"L": 2, "order_schemes": 1}, map[string]int{"L": 4, "order_schemes": 2}, []string{"built", "history_done"}, 20, sibDesc)
-	htg := h("cont.H_TwoGroups", map[string]int{"order_schemes": 1}, map[string]int{"order_schemes": 2}, []string{"resolved"}, 20, "three registrations of ONE element type, each a member of value group g1 or g2 (symbolic) with a symbolic lifetime, so that members of different groups sit at equal positions; both groups resolved repeatedly in two scopes, directly (both orders) and through a scoped consumer with one field per group: each group holds exactly its own members in registration order, each built by its own constructor and following its own lifetime rule; constructor counts")
+	htg := h("cont.H_TwoGroups", map[string]int{"order_schemes": 1}, map[string]int{"order_schemes": 2}, []string{"resolved", "nested_resolved"}, 20, "three registrations of ONE element type, each a member of value group g1 or g2 (symbolic) with a symbolic lifetime, so that members of different groups sit at equal positions (optionally the last member of g1 itself consumes group g2: resolving one group resolves the other half-way); both groups resolved repeatedly in two scopes, directly (both orders) and through a scoped consumer with one field per group: each group holds exactly its own members in registration order, each built by its own constructor and following its own lifetime rule; constructor counts")
 	for i := range properties {
 		switch properties[i].ID {
-		case "C01", "C02", "C03", "C04":
+		case "C01", "C02", "C03", "C04", "C17":
 			properties[i].Harnesses = append(properties[i].Harnesses, hsib)
-			if properties[i].ID == "C02" || properties[i].ID == "C04" {
-				properties[i].Harnesses = append(properties[i].Harnesses, htg)
+			if properties[i].ID == "C17" {
+				continue
 			}
+			properties[i].Harnesses = append(properties[i].Harnesses, htg)
 		}
 	}
 	for i := range properties {
@@ -304,7 +318,9 @@ h("cont.H_OptionalFault", map[string]int{"rounds": 3, "order_schemes": 1}, map[s
 				h("cont.H_Build", bld(2, 2, 2), bld(2, 3, 1), buildCov, 0, buildDesc+"; under C06: what the container recorded as the dependencies of EVERY output of a multi-output constructor equals what the constructor declares (construction order is computed from it)"),
 				h("cont.H_Order", bld(5, 4, 1), bld(5, 4, 2), []string{"both_built", "both_failed_or_differ"}, 0, "as above on four singleton registrations: consumers of an interface-typed value group, group members with plain dependencies of their own (a member may sit deeper in the graph than the members registered after it); four registration orders"),
 				h("cont.H_Rebuild", with2(bld(5, 4, 1), "edit", 1), with2(bld(5, 4, 2), "edit", 1), append([]string{"first_build_ok", "first_build_failed"}, buildCov...), 0, "a collection is built while one (symbolic) registration of the world is still missing; that registration is added afterwards: the provider built before never runs its constructor and holds nothing scoped in a non-scoped instance; the second Build judges the full set like a fresh collection and returns the verdict class a fresh collection with the same registrations returns"),
-				h("cont.H_KeyedLifetimes", map[string]int{"order_schemes": 2}, map[string]int{"order_schemes": 4}, []string{"built_twice", "model_conflict"}, 20, keyedLifeDesc))
+				h("cont.H_KeyedLifetimes", map[string]int{"order_schemes": 2}, map[string]int{"order_schemes": 4}, []string{"built_twice", "model_conflict"}, 20, keyedLifeDesc),
+				harnessSpec{Name: "graphh.H_C19", Module: "harness", Quick: map[string]int{"N": 3, "L": 1, "order_schemes": 2, "raw_start": 1}, Thorough: map[string]int{"N": 3, "L": 2, "order_schemes": 4, "raw_start": 1}, Covers: []string{"acyclic_state", "remove"}, Xval: 0,
+					Desc: "(C06 at the graph component, after edits) the operation harness of C19 - start state from symbolic masks, then L operations {AddProvider, AddProviderDeferred+DetectCycles, RemoveProvider, Clear, query-only} - with C06's obligation after every step: TopologicalSort lists every node of the CURRENT graph exactly once, dependencies first"})
 		}
 	}
 }
